@@ -15,6 +15,8 @@ PROFILES = {
     "event": dict(market_params={"p_removal": 0.2, "p_inplay": 0.5}, script_params={"n_orders": (1, 5)}, n_markets=(2, 3), n_strategies=(1, 2), event_processing=True),
     "recorded": dict(market_params={}, script_params={"n_orders": (3, 10), "sizes": (0.5, 2.0, 5.0, 10.0, 25.5)}, n_markets=(1, 2), recorded=True),
     "recorded_event": dict(market_params={}, script_params={"n_orders": (3, 8)}, n_markets=(2, 2), recorded=True, event_processing=True),
+    "lines": dict(market_params={"handicaps": "lines", "n_runners": (2, 6), "depth": (1, 4), "p_removal": 0.1}, script_params={"n_orders": (2, 8)}),
+    "availprices": dict(market_params={"depth": (1, 4), "p_book_change": 0.9, "p_trade": 0.3, "n_pre": (8, 20)}, script_params={"types": ("LIMIT",), "modes": ("rest", "rest", "join", "at", "far"), "p_fok": 0.0, "n_orders": (2, 6)}, config={"simulation_available_prices": True}),
     "fastlat": dict(market_params=HOSTILE_MARKET, script_params={"n_orders": (2, 7)}, config=lambda rng: {"place_latency": rng.choice((0.0, 0.001, 0.12)), "cancel_latency": rng.choice((0.0, 0.001, 0.17)), "update_latency": rng.choice((0.0, 0.15)), "replace_latency": rng.choice((0.0, 0.001, 0.28))}),
 }
 
